@@ -579,6 +579,9 @@ class Producer(object):
                 # associated failure
                 for p, f in failed_payloads_with_errs:
                     t_and_p = TopicAndPartition(p.topic, p.partition)
+                    if not isinstance(f, Failure):
+                        # errors found in responses arrive as exception instances
+                        f = Failure(f)
                     _deliver_result(deferredsByTopicPart[t_and_p], f)
                 return
             # Retries remain!  Schedule one...
